@@ -238,6 +238,32 @@ def evaluate_all(limit_orders=None):
             if out != "ok":
                 bad.append(("aliased-stream-update-refused",
                             "/".join(names), r, out))
+    # ---------------- seed tables held by StreamSeedInformation objects: two
+    # experiments in one process must not see each other's configuration
+    from pydsol.core.streams import StreamSeedInformation
+    for r in (0, 1, 3):
+        a = StreamSeedInformation()
+        a.add_stream("arrivals", MersenneTwister(3))
+        a.add_seed_values("arrivals", [9001, 9002])
+        a.add_seed_values("default", [8001, 8002, 8003, 8004])
+        b = StreamSeedInformation()
+        b.add_stream("arrivals", MersenneTwister(3))
+        upd_b = StreamSeedUpdater(b.get_seeds())
+        for nm in ("arrivals", "default"):
+            s_b = b.get_stream(nm)
+            want = MersenneTwister(s_b.original_seed())
+            SimpleStreamUpdater().update_seed(nm, want, r)
+            o = outcome(lambda: upd_b.update_seed(nm, s_b, r))
+            res["info|%s|%r" % (nm, r)] = [o, s_b.seed()]
+            if o != "ok" or s_b.seed() != want.seed():
+                bad.append(("experiment-sees-another-experiments-seed-table",
+                            nm, r, o, s_b.seed(), want.seed()))
+        if b.get_seeds() != {}:
+            bad.append(("fresh-StreamSeedInformation-has-seed-values",
+                        sorted(b.get_seeds())))
+        if StreamSeedInformation().get_stream("default") is \
+                StreamSeedInformation().get_stream("default"):
+            bad.append(("default-stream-object-shared-between-instances",))
     # ---------------- the seed table is edited after the updater was built
     for names in NAME_SETS:
         n0 = names[0]
